@@ -8,7 +8,7 @@ from . import common as C
 ID = 'C11'
 LEVEL = C.LEVEL
 EXPLANATION = C.EXPLANATION + '; every update uses fresh symbolic variables, so an evaluation that still depends on an older update (stale cache) or on POISON (uninitialised buffer) is a different DAG node than the fresh object\'s'
-ASSUMPTIONS = ['operation sequences up to length 3 over {evaluate at order k, update same shape, update other segment count, update other coefficient count (crossing 8), update to a second other coefficient count (both above 8 for the dynamic types), rejected update, copy, assign over a warm object, self-assignment + destroyed copy, derivative()} enumerated exhaustively; data symbolic',
+ASSUMPTIONS = ['operation sequences up to length 3 over {evaluate at order k, update same shape, update other segment count, update other coefficient count (crossing 8), update to a second other coefficient count (both above 8 for the dynamic types), rejected update, copy, assign / move-assign over a warm object, self-assignment + destroyed copy, derivative()} enumerated exhaustively; data symbolic',
                'data-dependent branches (none in the unchanged code) are explored by the path explorer', 'UF = bit-identity on Eigen scalar paths']
 FUNCTIONS = ['PPolyND::update/initializeInternal', 'invalidateDerivativeCaches', 'ensureDerivativeCoefficients/buildDerivativeCoefficients', 'ensureDerivativeFactorTable/buildDynamicDerivativeFactorTable',
              'copy constructor / copy assignment (implicit)', 'derivative()', 'Segment::evaluate', 'evaluate(t,k)', 'Spline::update -> initializePPoly -> getTrajectory()']
@@ -20,7 +20,7 @@ TYPES = {'2dyn': (2, -1), '3f6': (3, 6), '1f12': (1, 12)}
 # shapes (segments, coefficients) per type: base, same, other segment count, other coefficient count, a second other coefficient count
 # (so that sequences move between two counts above the static-table limit 8 in both directions: 4->12->9, 9->12->9, 12->9)
 SHAPES = {'2dyn': [(2, 4), (2, 4), (3, 4), (2, 9), (2, 12)], '3f6': [(2, 6), (2, 6), (1, 6), (2, 4), (3, 5)], '1f12': [(2, 9), (2, 9), (3, 9), (2, 4), (2, 12)]}
-OPS = ['E0', 'E1', 'E2', 'Us', 'Ug', 'Uc', 'Ud', 'Ub', 'CP', 'AS', 'DV', 'EG', 'SA']
+OPS = ['E0', 'E1', 'E2', 'Us', 'Ug', 'Uc', 'Ud', 'Ub', 'CP', 'AS', 'MV', 'DV', 'EG', 'SA']
 
 
 def bounds(tier):
@@ -117,6 +117,17 @@ class Gen:
             self.emit_update('pp.new', q, u)
             s.add('pp.seg', q, 'idx 0 tl 1 junk%d' % len(s.lines))
             s.add('pp.assign', q, 'P')
+            self.state[q] = self.state['P']
+        elif o == 'MV':
+            # assignment from an RVALUE (move assignment where the class has one) over an object that has other data and a built cache
+            q = 'Q%d' % self.ncopy
+            self.ncopy += 1
+            N, nc = sh[2]
+            u = self.fresh_data(N, nc)
+            self.emit_update('pp.new', q, u)
+            s.add('pp.seg', q, 'idx 0 tl 1 junk%d' % len(s.lines))
+            s.add('pp.seg', q, 'idx 0 tl 2 junk%d' % len(s.lines))
+            s.add('pp.moveassign', q, 'P')
             self.state[q] = self.state['P']
         elif o == 'SA':
             # self-assignment, and a copy that is destroyed again (its source must not notice)
@@ -246,6 +257,15 @@ def run_spline(t):
                 s.add('sp.update S tp', N1 + 1, *q, N1 + 1, *b.flatP(), b.bcname)
                 s.add('sp.new F tp', N1 + 1, *q, N1 + 1, *b.flatP(), b.bcname)
             a.new(s, 'FA')
+            # an evaluated spline re-assigned from a temporary built from other data
+            c_ = C.Problem(s, 'c', o, d, N1, rng)
+            c_.new(s, 'MVT')
+            s.add('sp.seg MVT 0 tl 1 junkmv')
+            s.add('sp.eval MVT tg 0 junkmvg')
+            s.add('sp.moveassign MVT S')
+            for k in (0, 1, 2):
+                for i in range(N1):
+                    s.add('sp.seg MVT', i, 'tl', k, 'mv_%d_%d' % (i, k))
             for k in range(0, C.NC[o] + 1):
                 for i in range(N1):
                     s.add('sp.seg S', i, 'tl', k, 'n_%d_%d' % (i, k))
@@ -272,6 +292,10 @@ def run_spline(t):
                         for dd in range(d):
                             sc.uf_eq('after update: piece %d order %d [%d] == fresh spline' % (i, k, dd), 'n_%d_%d.%d' % (i, k, dd), 'f_%d_%d.%d' % (i, k, dd))
                             sc.uf_eq('a reference to getTrajectory() obtained before the update reflects the update: piece %d order %d [%d]' % (i, k, dd), 'held_%d_%d.%d' % (i, k, dd), 'f_%d_%d.%d' % (i, k, dd))
+                for k in (0, 1, 2):
+                    for i in range(N1):
+                        for dd in range(d):
+                            sc.uf_eq('evaluated spline assigned from a temporary copy of the updated spline: piece %d order %d [%d] == fresh' % (i, k, dd), 'mv_%d_%d.%d' % (i, k, dd), 'f_%d_%d.%d' % (i, k, dd))
                 for k in (0, 1):
                     for i in range(N0):
                         for dd in range(d):
